@@ -68,7 +68,8 @@ def handle : Handler
   | "c09.merge", j =>
     let l := match (getObj? j "left").map toJ with | some (.obj kvs) => kvs | _ => []
     let r := match (getObj? j "right").map toJ with | some (.obj kvs) => kvs | _ => []
-    let res := if getStr j "mode" = "top" then Merge.mergeTop l r else Merge.mergeObj l r
+    let safe := Gen.QueryBatchFacts.facts.safeIdCompare
+    let res := if getStr j "mode" = "top" then Merge.mergeTop safe l r else Merge.mergeObj safe l r
     some (match res with
       | .error w => obj [("outcome", "panic"), ("what", w)]
       | .ok m => obj [("outcome", "ok"), ("result", ofJ (.obj m))])
